@@ -24,6 +24,7 @@ IDENT = re.compile(r"^[A-Za-z_][A-Za-z0-9_]*$")
 def norm_msg(line):
     m = re.search(r"(?:fatal )?error: (.*)", line)
     s = m.group(1) if m else line
+    s = re.sub(r"; did you mean .*", "", s)      # g++'s spelling suggestion depends on what else is in scope
     s = re.sub(r"[‘'`][^’']*[’']", "'X'", s)
     s = re.sub(r"\[-f[\w-]+\]|\[-W[\w=-]+\]", "", s)
     s = re.sub(r"\d+", "N", s)
